@@ -51,6 +51,21 @@ def build_harness():
     log("[build] harness built in %.1fs" % (time.time() - t0))
 
 
+NODEBUG_BIN = os.path.join(HARNESS, "target", "nodebug", "vharness")
+
+
+def build_harness_nodebug():
+    """The same harness with debug assertions off (profile nodebug): a debug_assert of the library
+    would otherwise turn a drifting counter into a panic before the drift can be observed."""
+    env = dict(os.environ, CARGO_NET_OFFLINE="true")
+    t0 = time.time()
+    r = subprocess.run(["cargo", "build", "--offline", "--quiet", "--profile", "nodebug"], cwd=HARNESS, env=env,
+                       stdout=subprocess.PIPE, stderr=subprocess.STDOUT, text=True)
+    if r.returncode != 0:
+        raise ToolError("harness build (debug assertions off) failed:\n" + r.stdout[-4000:])
+    log("[build] harness with debug assertions off built in %.1fs" % (time.time() - t0))
+
+
 ASAN_BIN = os.path.join(HARNESS, "target-asan", "x86_64-unknown-linux-gnu", "debug", "vharness")
 
 
@@ -418,6 +433,7 @@ def main(argv):
     try:
         if argv[0] == "setup":
             build_harness()
+            build_harness_nodebug()
             wd = os.path.join(WORK, "setup")
             prepare_dir(wd)
             r = model_check(wd, "smoke", "MC_Unsync.tla",
